@@ -41,17 +41,30 @@ func (o op) key() string {
 
 var paths = []string{"", "/", "/publicKey", "/publicKey/0", "/publicKey/0/id", "/publicKey/-", "/service", "/service/0", "/service/0/serviceEndpoint",
 	"/publicKeyX", "/servic", "/services", "/other", "/other/publicKey", "/other/0", "/alsoKnownAs", "/alsoKnownAs/0", "/nonexistent", "/public~0Key",
-	"/~1publicKey", "//publicKey", "/zz", "/zz/0", "/zz/0/id", "/zz/-"}
+	"/~1publicKey", "//publicKey", "/zz", "/zz/0", "/zz/0/id", "/zz/-",
+	// pointers that do not start with '/' (not RFC 6901 pointers; what the RFC 6902 library makes of them is the library's business)
+	"publicKey", "x/publicKey", "x/publicKey/0", "x/service", "x/service/0/type", "publicKey/0", " /publicKey"}
 
 var values = []string{`{"x":1}`, `"s"`, `[{"id":"evil","type":"T"}]`}
 
 // isPrefix reports whether pointer a is a token prefix of (or equal to) pointer b.
 func isPrefix(a, b string) bool {
+	a, b = libView(a), libView(b)
 	return a == b || strings.HasPrefix(b, a+"/")
 }
 
+// libView is the pointer as the pinned RFC 6902 library reads it: whatever precedes the first '/' is ignored.
+// (Only used to keep operations that copy/move a value into its own subtree out of this check: they can kill the
+// process and belong to C19.)
+func libView(p string) string {
+	if i := strings.Index(p, "/"); i > 0 {
+		return p[i:]
+	}
+	return p
+}
+
 func Run(r *core.Run) {
-	r.Rule = "3 documents x RFC 6902 patch lists over 6 operation kinds x 25 path pointers x 25 from pointers x 3 values: all single operations; pairs (copy|move ; any operation at or below that operation's target or source, or moving/copying from there) in quick, all ordered pairs in thorough; " +
+	r.Rule = "3 documents x RFC 6902 patch lists over 6 operation kinds x 32 path pointers x 32 from pointers x 3 values: all single operations; pairs (copy|move ; any operation at or below that operation's target or source, or moving/copying from there) in quick, all ordered pairs in thorough; " +
 		"oracle: validated and applied => publicKey and service members deep-equal to the input's; distinct = distinct patch lists that validate and apply; non-trivial = the list validates and applies"
 	r.Assumptions = []string{"operations whose from is a token prefix of their path (copy/move into own subtree) are left to C19 (they can crash the pinned RFC 6902 library)",
 		"a panic inside ApplyPatches counts as not applied here (C19 judges it)"}
